@@ -73,7 +73,7 @@ class JaggedArray:
                         )
                         offset += len(flattenedList)
                         flattenedArray.extend(flattenedList)
-            elif isinstance(arr, (int, float)):
+            elif isinstance(arr, (int, float, np.number, np.bool_)):
                 offsets.append(offset)
                 shapes.append((1,))
                 offset += 1
